@@ -72,7 +72,7 @@ partial def loop (h : IO.FS.Stream) (out : IO.FS.Stream) (c : Conf) : IO Unit :=
     let c' := parseCfg (rhs.splitOn " ")
     out.putStrLn "cfg"
     loop h out c'
-  else if line.startsWith "ep_param " then
+  else if line.startsWith "ep_param " || line.startsWith "pc_param " then
     match line.splitOn " => " with
     | [_, got] =>
       match C03.parseEnv got with
